@@ -342,6 +342,15 @@ def write_replay(pid, o):
                 suffix = ""
             elif repro is False and o.get("playback") is not None and not o.get("termination"):
                 not_reproduced = True
+        else:
+            # Kani gave no concrete values (playback timed out / nothing printed): the failure may not depend on the inputs at
+            # all.  Try the all-zero input natively; a native failure is a genuine replay, a pass proves nothing.
+            repro, out = kani_runner.native_replay([os.path.join(VERIF, f) for f in o["files"]], o["harness"], [],
+                                                   inject=o.get("inject", ()))
+            if repro:
+                rec["values"] = []
+                rec["native_replay"] = {"reproduced": True, "output": out[-3000:], "note": "all-zero input (Kani printed no values)"}
+                suffix = ""
     else:
         rec["note"] = ("Verus gives no counterexample; the failed obligation and the verifier's diagnostics are "
                        "recorded.  Replay = re-run the obligation.")
